@@ -421,11 +421,13 @@ def process(job, harness, env, seed, tier_quick):
     rng = random.Random(seed)
     res = {"job": job, "calls": [], "sets": [], "why": "", "rc": 0, "err": "", "seed": seed}
     mono = exact_mono(job)
+    omono = job.get("oracle_mono") or mono       # the oracle may certify q when the input is c * q(x/s) * s^n (same roots up to the factor s)
+    sc = Fr(job.get("oscale", 1))
     depth = job.get("depth", 140)
     orc = None; roots = []; mult = []; crits = []
-    if mono is not None and len(mono) >= 2:
+    if omono is not None and len(omono) >= 2:
         try:
-            orc = Oracle(mono)
+            orc = Oracle(omono)
             if not orc.certify(target_radius_log2=-depth):
                 res["why"] = "uncertified:" + str(orc.why)[:60]; orc.close(); orc = None
         except Exception as e:
@@ -434,20 +436,23 @@ def process(job, harness, env, seed, tier_quick):
         res["why"] = "no-exact-polynomial"
     if orc is not None:
         roots = [(r["re"], r["im"]) for r in orc.roots]; mult = [r["mult"] for r in orc.roots]
-        if len(mono) >= 3 and job["kind"] == "M" and job.get("crit", True):
+        if len(omono) >= 3 and job["kind"] == "M" and job.get("crit", True):
             try:
-                o2 = Oracle(pderiv(mono))
+                o2 = Oracle(pderiv(omono))
                 if o2.certify(target_radius_log2=-70): crits = [(r["re"], r["im"]) for r in o2.roots]
                 o2.close()
             except Exception: pass
     kmax = depth - 40
     n = (len(mono) - 1) if mono is not None else (len(job["sec"]) if job["kind"] == "S" else len(job["cheb"]) - 1)
     cmds = []            # (line, meta)
+    scz = lambda z: (z[0] * sc, z[1] * sc)
+    nofloat = job.get("no_float", False)
     if job.get("fixed_cmds"):
         cmds = [(c, meta_of_cmd(c)) for c in job["fixed_cmds"]]
     elif not job.get("radii_only"):
         for tag, z in gen_points(job, roots, crits, rng, min(kmax, 60)):
-            if dbl(z[0]) == z[0] and dbl(z[1]) == z[1]:
+            z = scz(z)
+            if not nofloat and dbl(z[0]) == z[0] and dbl(z[1]) == z[1]:
                 cmds.append(("NF %s %s" % (hq(z[0]), hq(z[1])), {"prim": "fnewton", "tag": tag, "z": z}))
             zz = split_dpe(z)
             cmds.append(("ND %s %d %s %d" % (hq(zz[0]), zz[1], hq(zz[2]), zz[3]), {"prim": "dnewton", "tag": tag, "z": z}))
@@ -456,19 +461,23 @@ def process(job, harness, env, seed, tier_quick):
             cmds.append(("ND %s %d %s %d" % (hq(zz[0]), zz[1], hq(zz[2]), zz[3]), {"prim": "dnewton", "tag": tag, "z": z}))
         for prec in job.get("precs", [64]):
             for tag, z in gen_mpoints(job, roots, crits, rng, prec, kmax):
+                z = scz(z)
                 cmds.append(("NM %d %s %s" % (prec, hq(z[0]), hq(z[1])), {"prim": "mnewton", "tag": tag, "z": z, "prec": prec}))
     if not job.get("newton_only") and not job.get("fixed_cmds"):
         for tag, zs in distinct_sets(job, n, roots, mult, rng, min(kmax, 50)):
+            zs = [scz(z) for z in zs]
             flat = " ".join("%s %s" % (hq(z[0]), hq(z[1])) for z in zs)
-            cmds.append(("RF " + flat, {"prim": "fradii", "tag": tag, "zs": zs}))
-            cmds.append(("RD " + " ".join("%s 0 %s 0" % (hq(z[0]), hq(z[1])) for z in zs), {"prim": "dradii", "tag": tag, "zs": zs}))
+            if not nofloat: cmds.append(("RF " + flat, {"prim": "fradii", "tag": tag, "zs": zs}))
+            cmds.append(("RD " + " ".join("%s %d %s %d" % ((lambda t: (hq(t[0]), t[1], hq(t[2]), t[3]))(split_dpe(z))) for z in zs), {"prim": "dradii", "tag": tag, "zs": zs}))
             for prec in job.get("rprecs", [64]):
                 cmds.append(("RM %d " % prec + flat, {"prim": "mradii", "tag": tag, "zs": zs, "prec": prec}))
         if job["kind"] == "S":
             for ph, prec in job.get("sr", [("d", 64), ("m", 128)]):
                 cmds.append(("SR %s %d" % (ph, prec), {"prim": "set_radii", "tag": "nodes", "phase": ph, "prec": prec}))
     text = job["pline"] + "\n" + "\n".join(c[0] for c in cmds) + "\n"
+    t1 = _t.time()
     rc, out, err = vf.sh([harness], input=text, timeout=300, env=env)
+    res["hsecs"] = _t.time() - t1; res["presecs"] = t1 - t0
     res["rc"] = rc; res["err"] = err[-1500:]; res["text"] = text
     lines = out.strip().split("\n") if out.strip() else []
     if rc != 0 or len(lines) != len(cmds) + 1:
@@ -550,14 +559,14 @@ def process(job, harness, env, seed, tier_quick):
     if orc is not None:
         try:
             if newton_q:
-                ans = e2e.count_discs(orc, [(r["centre"][0], r["centre"][1], r["rad"]) for r in newton_q])
+                ans = e2e.count_discs(orc, [(r["centre"][0] / sc, r["centre"][1] / sc, r["rad"] / sc) for r in newton_q])
                 for r, a in zip(newton_q, ans): r["count"] = a
                 bad = [r for r in newton_q if r["count"][1] == 0]
                 if bad:
-                    ans = orc.count([(r["centre"][0], r["centre"][1], r["rad"] * (1 + Fr(1, 1 << 44))) for r in bad])
+                    ans = orc.count([(r["centre"][0] / sc, r["centre"][1] / sc, r["rad"] / sc * (1 + Fr(1, 1 << 44))) for r in bad])
                     for r, a in zip(bad, ans): r["count_inflated"] = a
             for rec in res["sets"]:
-                judge_set(orc, rec, n)
+                judge_set(orc, rec, n, sc)
         except Exception as e:
             res["why"] += " oracle-query:%r" % (e,)
         orc.close()
@@ -621,8 +630,10 @@ def split_dpe(z):
     return out
 
 
-def judge_set(orc, rec, n):
+def judge_set(orc, rec, n, sc=Fr(1)):
     rads, cs = rec["rads"], rec["centres"]
+    if sc != 1:      # oracle coordinates: everything divided by the (positive) scale; overlaps and inclusions are invariant
+        rads = [r / sc if isinstance(r, Fr) else r for r in rads]; cs = [(c[0] / sc, c[1] / sc) for c in cs]
     fin = [i for i in range(n) if isinstance(rads[i], Fr) and rads[i] >= 0]
     rec["verdict"] = "no-claim"
     if not fin: return
@@ -761,6 +772,29 @@ def families(rng, quick):
     return jobs
 
 
+def range_jobs(rng, quick):
+    """coefficients beyond the double range in both directions (the DPE / multiprecision variants exist for those):
+    c * q(x/s) * s^n with c = 2^+-1100 and/or roots scaled by s = 2^+-600; the oracle certifies q (same roots up to s)"""
+    jobs = []
+    qs = [("3(x^2-1)", [(-3, 0), (0, 0), (3, 0)]),
+          ("(x-1)^3(x+2)", expand_roots([(1, 0)] * 3 + [(-2, 0)])),
+          ("(2x-1)(x^2+1)(x-3)", expand_roots([(Fr(1, 2), 0), (0, 1), (0, -1), (3, 0)], 2))]
+    for t in range(2 if quick else 8):
+        qs.append(("randint%d" % t, G.rand_int_poly(rng, rng.randint(2, 6), 6, rng.random() < 0.4)))
+    combos = [(1100, 0), (-1100, 0), (0, 600), (0, -600), (1100, -600), (-1100, 600)]
+    k = 0
+    for name, q in qs:
+        q = [(Fr(c[0]), Fr(c[1])) for c in q]
+        n = len(q) - 1
+        for ce, se in (combos if not quick else [combos[(k + i) % len(combos)] for i in range(3)] if k >= 1 else combos[:4]):
+            c = pow2(ce); sc = pow2(se)
+            co = [(x[0] * c * sc ** (n - i), x[1] * c * sc ** (n - i)) for i, x in enumerate(q)]
+            jobs.append(mono_job("%s*2^%d,roots*2^%d" % (name, ce, se), "beyond-double-range", co, oracle_mono=strip_zero(q), oscale=sc,
+                                 no_float=True, precs=[64, 256], rprecs=[64, 256], nrand=2))
+        k += 1
+    return jobs
+
+
 def pin_jobs(rng, quick):
     """exact regime: small integer coefficients, short dyadic points"""
     jobs = []
@@ -798,6 +832,17 @@ KINDNAME = {"M": "monomial", "S": "secular", "C": "chebyshev"}
 PIN_TOL = 8.0
 
 
+def sf(x):
+    """float for messages; huge/tiny exact values are shown as a power of two"""
+    try:
+        f = float(x)
+        if f == 0.0 and x != 0: raise OverflowError
+        return f
+    except OverflowError:
+        return "2^%d" % e2e._ilog2_floor(abs(Fr(x)))
+
+
+
 def run(ctx):
     ctx.prove()
     harness = ctx.compile_harness(["c04_radius.c"], "c04_radius", mode="san")
@@ -808,7 +853,8 @@ def run(ctx):
         rp = json.load(open(ctx.replay))
         jobs = [rp["job"]]
         for j in jobs:
-            for key in ("mono", "sec", "cheb", "points", "mpoints", "sets"):
+            if j.get("oscale") is not None: j["oscale"] = unfr(j["oscale"])
+            for key in ("mono", "sec", "cheb", "points", "mpoints", "sets", "oracle_mono"):
                 if j.get(key) is not None: j[key] = unfr(j[key])
             if rp.get("cmd"): j["fixed_cmds"] = [rp["cmd"]]
     else:
@@ -819,7 +865,7 @@ def run(ctx):
             if n <= 4 and k % 5 == 0: j["depth"] = ctx.pick(600, 4200); j["precs"] = ctx.pick([64, 576], [64, 1024, 4096]); j["rprecs"] = [64, 512]
             elif n <= 8 and k % 3 == 0: j["depth"] = ctx.pick(330, 1100); j["precs"] = ctx.pick([64, 256], [64, 256, 1024]); j["rprecs"] = [64, 192]
             else: j["precs"] = [64, 128] if k % 2 else [100]
-        jobs += families(rng, quick) + pin_jobs(rng, quick)
+        jobs += families(rng, quick) + pin_jobs(rng, quick) + range_jobs(rng, quick)
     seeds = [rng.getrandbits(32) for _ in jobs]
     if os.environ.get("C04_ONLY"):
         keep = [i for i, j in enumerate(jobs) if any(w in j["name"] or w in j["cls"] for w in os.environ["C04_ONLY"].split(","))]
@@ -827,7 +873,7 @@ def run(ctx):
     if ctx.replay and "seed" in rp: seeds = [rp["seed"]]
     ctx.log("jobs: %d" % len(jobs))
     results = e2e.par_map(lambda js: process(js[0], harness, env, js[1], quick), list(zip(jobs, seeds)))
-    ctx.log("harness + oracle done; slowest jobs: %s" % sorted(((round(r.get("secs", 0), 1), r["job"]["name"], r["job"].get("depth", 140)) for r in results), reverse=True)[:8])
+    ctx.log("harness + oracle done; slowest jobs: %s" % sorted(((round(r.get("secs", 0), 1), round(r.get("presecs", 0), 1), round(r.get("hsecs", 0), 1), r["job"]["name"], r["job"].get("depth", 140)) for r in results), reverse=True)[:6])
 
     stats = collections.Counter(); samples = []; nontrivial = set(); evaluations = 0
     pin_bad = collections.defaultdict(list); pin_n = collections.Counter(); viol_prims = set(); below = collections.Counter()
@@ -867,14 +913,14 @@ def run(ctx):
                     # the disc misses the root by less than 2^-44 of its radius: only the rounding of the radius arithmetic is missing
                     sig = "newton-disc-misses-root-by-rounding:%s" % fn
                 ctx.violation(sig, "%s returned a finite radius whose disc contains no root (certified): %s, point (%s, %s) [%s], radius %s, again=%s%s"
-                              % (fn, job["name"], float(rec["centre"][0]), float(rec["centre"][1]), rec["tag"], float(r), rec["again"], (", wp=%d" % rec["wp"]) if "wp" in rec else ""),
+                              % (fn, job["name"], sf(rec["centre"][0]), sf(rec["centre"][1]), rec["tag"], sf(r), rec["again"], (", wp=%d" % rec["wp"]) if "wp" in rec else ""),
                               replay_obj(job, {"seed": res["seed"], "text": res["text"], "cmd": rec["cmd"], "out": rec["out"]}))
                 stats["VIOLATION:" + key] += 1
             elif lo >= 1:
                 stats["contains-root:" + key] += 1; nontrivial.add((job["name"], rec["cmd"]))
                 if len(samples) < 4 and rec["tag"].startswith("root"):
-                    samples.append({"poly": job["name"], "class": job["cls"], "primitive": prim, "point": [float(rec["centre"][0]), float(rec["centre"][1])],
-                                    "tag": rec["tag"], "radius": float(r), "oracle_count": [lo, hi]})
+                    samples.append({"poly": job["name"], "class": job["cls"], "primitive": prim, "point": [sf(rec["centre"][0]), sf(rec["centre"][1])],
+                                    "tag": rec["tag"], "radius": sf(r), "oracle_count": [lo, hi]})
             else:
                 stats["undecided:" + key] += 1
         for rec in res["sets"]:
@@ -911,7 +957,7 @@ def run(ctx):
                 nontrivial.add((job["name"], rec["cmd"]))
                 if len(samples) < 7 and rec["tag"] != "random":
                     samples.append({"poly": job["name"], "class": job["cls"], "primitive": prim, "approximations": rec["tag"],
-                                    "components": rec.get("components"), "radii": [float(x) for x in rec["rads"][:4]]})
+                                    "components": rec.get("components"), "radii": [sf(x) for x in rec["rads"][:4]]})
     # formula correspondence: a mismatch not accompanied by a certified violation of the same primitive
     for key, lst in sorted(pin_bad.items()):
         stats["pin-mismatch:" + key] = len(lst)
